@@ -3,7 +3,7 @@ import ast
 
 from ..astutil import norm, const, NO, compare, tail, names
 from ..index import AnalysisError, walk_own
-from .common import (site, key, calls_to, method_calls, nodes_with, guard_check, stores_to_name)
+from .common import (site, key, calls_to, method_calls, nodes_with, guard_check, stores_to_name, rname)
 
 BODY = "gunicorn.http.body"
 MSG = "gunicorn.http.message"
@@ -54,7 +54,7 @@ def r5(ctx):
                     ctx.check("C07.R5", not c.args and not c.keywords, key(f, "prefilled-buffer|" + norm(c)), site(f, c),
                               "`%s` creates a buffer whose position is 0 although it holds data: this layer uses tell() as the number of buffered bytes and appends with write(), "
                               "so the next refill overwrites the buffered bytes" % norm(c), "buffer created empty, filled with write()")
-    ctx.floor("C07.R5", "BytesIO constructions in the http layer", n, 10)
+    ctx.floor("C07.R5", "BytesIO constructions in the http layer", n, 6)
     ctx.check("C07.R5", uses_tell, "tell-as-fill-level", "gunicorn/http: buffers", "the rule's premise (tell() used as fill level) no longer holds", "tell() is the fill level")
 
 
@@ -64,32 +64,47 @@ def r1(ctx):
     g = f.cfg
     ctor = [c for c in walk_own(f.node) if isinstance(c, ast.Call) and repo.resolve(f.module, f, c.func) == "self.mesg_class"]
     ctx.need(ctor, "C07.R1: message construction not found in Parser.__next__")
-    # drain loops: `while D:` with D assigned from <..>.body.read(N) before and inside
-    loops = []
-    for w in walk_own(f.node):
-        if isinstance(w, ast.While) and isinstance(w.test, ast.Name):
-            D = w.test.id
-            vals = [s.ast.value for s in stores_to_name(f, D) if isinstance(s.ast, ast.Assign)]
-            if len(vals) >= 2 and all(isinstance(v, ast.Call) and isinstance(v.func, ast.Attribute) and v.func.attr == "read" and tail(v.func.value) == "body" for v in vals) \
-                    and any(any(a is w for a in f.module.ancestors(s.ast)) for s in stores_to_name(f, D)):
-                loops.append(w)
-    ctx.check("C07.R1", len(loops) == 1, key(f, "drain-loop"), site(f), "no loop that reads the previous body until it returns empty", "drain loop present")
-    if not loops:
+    # drain tests: a test whose outcome is the truth of `<previous message>.body.read(N)` -- either the call itself
+    # (`while prev.body.read(8192): pass`) or a name every store to which is such a call (`data = ..read(); while data:`)
+    def is_read(c):
+        return isinstance(c, ast.Call) and isinstance(c.func, ast.Attribute) and c.func.attr == "read" and rname(f, c.func.value) == "self.mesg.body"
+    drains = []         # (test node, read calls, store nodes or None)
+    for t in g.tests():
+        e = t.ast
+        if is_read(e):
+            drains.append((t, [e], None))
+        elif isinstance(e, ast.Name):
+            st = stores_to_name(f, e.id)
+            vals = [s.ast.value if isinstance(s.ast, ast.Assign) else None for s in st]
+            if st and all(is_read(v) for v in vals):
+                drains.append((t, vals, st))
+    ctx.check("C07.R1", bool(drains), key(f, "drain-loop"), site(f), "no loop that reads the previous body until it returns empty", "drain loop present")
+    if not drains:
         return
-    w = loops[0]
-    head = [n for n in g.nodes_of(w) if n.kind == "join"][0]
 
     def recog(e):
-        if isinstance(e, ast.Attribute) and e.attr == "mesg":
+        if rname(f, e) == "self.mesg":
             return +1          # false edge: no previous message, nothing to drain
         return None
-    p, hits = guard_check(f, [n for c in ctor for n in nodes_with(f, c)], recog, without_nodes=[head])
+    # only "read() returned empty" (the false edge of a drain test) leads on to the construction
+    cut = [(t, "false") for t, _, _ in drains]
+    p, hits = guard_check(f, [n for c in ctor for n in nodes_with(f, c)], recog, extra_cut=cut)
     ctx.check("C07.R1", p is None, key(f, "drain-before-next"), site(f, ctor[0]),
               "the next message can be parsed without the unread body of the previous one having been discarded: its bytes would be parsed as a request", "drain loop dominates the construction",
               path=p and g.fmt_path(p))
-    brk = [n for n in g.stmts((ast.Break, ast.Return)) if any(a is w for a in f.module.ancestors(n.ast))]
-    ctx.check("C07.R1", not brk, key(f, "drain-complete"), site(f, w.test), "the drain loop can be left before the body is exhausted", "left only when read() returns empty")
-    sizes = [const(v.args[0], NO) for s in stores_to_name(f, w.test.id) for v in [s.ast.value] if isinstance(s.ast, ast.Assign) and v.args]
+    # while data keeps coming the drain goes on: from the true edge every way forward re-reads (comes back to a drain
+    # test through a fresh read) -- it can neither leave nor spin on a stale value
+    for t, reads, st in drains:
+        r = g.reachable([(t, "true")], without_nodes=[x[0] for x in drains] + (st or []), follow_exc=False)
+        leaves = [n for n in r if n in (g.exit,) or any(n in g.nodes_containing(c) for c in ctor)]
+        ctx.check("C07.R1", not leaves, key(f, "drain-complete"), site(f, t), "the drain loop can be left before the body is exhausted", "left only when read() returns empty")
+        if st is not None:
+            back = g.reachable([(t, "true")], without_nodes=st, follow_exc=False)
+            ctx.check("C07.R1", t not in back, key(f, "drain-rereads"), site(f, t), "the drain loop tests a value it does not refresh from read()", "re-read on every round")
+        else:
+            back = g.reachable([(t, "true")], follow_exc=False)
+            ctx.check("C07.R1", t in back, key(f, "drain-rereads"), site(f, t), "the previous body is read once, not until it is exhausted", "loop until read() returns empty")
+    sizes = [const(v.args[0], NO) if v.args else None for _, reads, _ in drains for v in reads]
     ctx.check("C07.R1", all(isinstance(x, int) and x > 0 for x in sizes), key(f, "drain-size"), site(f), "the drain reads with a non-positive size (read(0) returns b'' immediately)", "positive read size")
     # RequestParser builds Requests
     rp = repo.cls(PARSER + ".RequestParser")
